@@ -503,6 +503,43 @@ def r9(ctx, prog):
     ctx.ob('C09.R9', '%s|whole-header' % fe.name, ok, 'the front end ships the whole LogContent (sizeof) through the pipe', where=fe.loc(fe.body))
 
 
+def r10(ctx, prog):
+    ctx.rule('C09.R10', 'A10 (interval abstract interpretation): the level stored in a record lies inside the level tables: LogPrintfFunc clamps `level` into '
+             '[0, LOG_LEVEL_MAX) before it builds the record, the record\'s level is that variable, and sinks index the level tables only with the record\'s level', floor=4)
+    from tbxlint import absint
+    tables = {k.split('::')[-1]: v[0].get('n_elems') for k, v in prog.globals.items() if k.split('::')[-1] in ('LOG_LEVEL_LEVEL_CODE', 'LOG_LEVEL_COLOR_CODE')}
+    if len(tables) < 2 or not all(tables.values()):
+        raise AnalysisBroken('level tables not found: %s' % tables)
+    size = min(tables.values())
+    f = prog.fn1('LogPrintfFunc')
+    it = absint.Interp(f).run()
+    lv = next((p_ for p_ in f.params if p_['n'] == 'level'), None)
+    decl = [st for st in f.stmts if st and st['k'] == 'DeclStmt' and any('LogContent' in (d.get('ct') or d.get('t') or '') for d in st['decls'])]
+    if lv is None or not decl:
+        raise AnalysisBroken('LogPrintfFunc: level parameter / LogContent record not found')
+    env = it.at(decl[0]['i']) or {}
+    iv = env.get(lv['d'], it.types.get(lv['d']))
+    ok = iv is not None and iv[0] >= 0 and iv[1] <= size - 1
+    ctx.ob('C09.R10', 'LogPrintfFunc|level-clamped', ok, 'level is in [%d, %d] where the record is built (tables have %d entries)' % (iv[0], iv[1], size) if ok else
+           'level can be %s where the record is built but the level tables have %d entries: a sink indexes them out of bounds' % (iv, size), where=f.loc(decl[0]['i']))
+    # the record's level field is initialised from that variable
+    uses = [st for st in f.stmts if st and st['k'] == 'DeclRefExpr' and st.get('d') == lv['d'] and st['i'] in set(f.walk(decl[0]['i']))]
+    ctx.ob('C09.R10', 'LogPrintfFunc|record-level', bool(uses), 'the record is initialised with the clamped variable', where=f.loc(decl[0]['i']))
+    n = 0
+    for g in prog.funcs.values():
+        if not (g.file.startswith(MODULES + '/log/') or g.file.endswith('base/log_output.cpp')):
+            continue
+        for st in g.stmts:
+            if st and st['k'] == 'ArraySubscriptExpr' and g.path(st['ch'][0]).split('::')[-1] in tables:
+                n += 1
+                idx = g.path(st['ch'][1])
+                ok = idx.endswith('.level') or idx == 'level'
+                ctx.ob('C09.R10', '%s|index@%s' % (g.name, g.loc(st['i']).split(':')[-1]), ok, 'table %s indexed with %s' % (g.path(st['ch'][0]).split('::')[-1], idx) if ok else
+                       'level table indexed with %s, which is not the record\'s (clamped) level' % idx, where=g.loc(st['i']))
+    if n < 2:
+        raise AnalysisBroken('expected >= 2 level-table subscripts in the sinks, saw %d' % n)
+
+
 def run(ctx):
     prog = extract('ALL' if ctx.tier == 'thorough' else scope_units())
     ctx.guard(r1, ctx, prog)
@@ -513,4 +550,5 @@ def run(ctx):
     ctx.guard(r7, ctx, prog)
     ctx.guard(r8, ctx, prog)
     ctx.guard(r9, ctx, prog)
+    ctx.guard(r10, ctx, prog)
     return prog
